@@ -107,6 +107,12 @@ type Frame struct {
 	inEdges map[*ssa.BasicBlock][]edgeFrom
 	wob     []*ssa.Alloc
 	wobDone bool
+	// inlined frames of un-contracted callees that contain loops: the caller, the caller's block at the call, and
+	// the number of loop ordinals taken before this frame's first loop (the loop sections of the top function's
+	// contract are bound to the loops of the flattened body in source order)
+	up      *Frame
+	upBlk   *ssa.BasicBlock
+	ordBase int
 	loops  map[*ssa.BasicBlock]*loopInfo
 	rets   []retInfo
 	depth  int
@@ -129,6 +135,91 @@ func (c *Ctx) newFrame(fn *ssa.Function, depth int, prefix string) *Frame {
 }
 
 // ---------- loops ----------
+
+func (f *Frame) topFrame() *Frame {
+	t := f
+	for t.up != nil {
+		t = t.up
+	}
+	return t
+}
+
+// loopCount: loops of g plus those of the un-contracted callees with loops that would be inlined into it.
+func (c *Ctx) loopCount(g *ssa.Function, seen map[*ssa.Function]bool) int {
+	if seen[g] {
+		return 0
+	}
+	seen[g] = true
+	defer delete(seen, g)
+	n := len(loopsInSource(g.Syntax()))
+	for _, b := range g.Blocks {
+		for _, ins := range b.Instrs {
+			if call, ok := ins.(*ssa.Call); ok {
+				if h := c.loopInlinee(call); h != nil {
+					n += c.loopCount(h, seen)
+				}
+			}
+		}
+	}
+	return n
+}
+
+// loopInlinee: the callee of a call that is a repository function without a contract and with a loop (it is inlined
+// together with its loops when the function under verification has a contract), else nil.
+func (c *Ctx) loopInlinee(call *ssa.Call) *ssa.Function {
+	g, ok := call.Common().Value.(*ssa.Function)
+	if !ok || call.Common().IsInvoke() {
+		return nil
+	}
+	key, isRepo := c.eng.keyOf[g]
+	if !isRepo || g == c.fn {
+		return nil
+	}
+	if fc := c.eng.cs.Funcs[key]; fc != nil && !fc.Inline {
+		return nil
+	}
+	if len(g.Blocks) == 0 || !hasLoop(g) {
+		return nil
+	}
+	return g
+}
+
+func hasLoop(g *ssa.Function) bool {
+	for _, b := range g.Blocks {
+		for _, s := range b.Succs {
+			if s.Dominates(b) {
+				return true
+			}
+		}
+	}
+	return false
+}
+
+// inlinedLoopsBefore: number of loops contributed by loop-carrying inlinees called, in this function, before pos.
+func (f *Frame) inlinedLoopsBefore(pos token.Pos) int {
+	n := 0
+	for _, b := range f.fn.Blocks {
+		for _, ins := range b.Instrs {
+			if call, ok := ins.(*ssa.Call); ok && call.Pos() != token.NoPos && call.Pos() < pos {
+				if h := f.c.loopInlinee(call); h != nil {
+					n += f.c.loopCount(h, map[*ssa.Function]bool{f.fn: true})
+				}
+			}
+		}
+	}
+	return n
+}
+
+// ordBaseFor: loop ordinals taken before the first loop of the callee inlined at call.
+func (f *Frame) ordBaseFor(call *ssa.Call) int {
+	n := f.ordBase + f.inlinedLoopsBefore(call.Pos())
+	for _, l := range loopsInSource(f.fn.Syntax()) {
+		if l.Pos() < call.Pos() {
+			n++
+		}
+	}
+	return n
+}
 
 func (f *Frame) findLoops() {
 	fn := f.fn
@@ -190,16 +281,30 @@ func (f *Frame) findLoops() {
 			}
 		}
 		li.ordinal = best + 1
-		if f.fc != nil && best >= 0 {
-			li.lc = f.fc.Loops[best+1]
+		lfc := f.fc
+		if best >= 0 {
+			// loops of un-contracted callees that are inlined at call sites written before this loop come first
+			li.ordinal = f.ordBase + best + 1 + f.inlinedLoopsBefore(src[best].Pos())
 		}
-		if f.fc != nil && len(f.fc.LoopInvs) > 0 {
+		if f.up != nil {
+			lfc = f.topFrame().fc
+		}
+		if lfc != nil && best >= 0 {
+			li.lc = lfc.Loops[li.ordinal]
+			if f.up != nil {
+				if f.c.inlinedLoopOrdinals == nil {
+					f.c.inlinedLoopOrdinals = map[int]bool{}
+				}
+				f.c.inlinedLoopOrdinals[li.ordinal] = true
+			}
+		}
+		if lfc != nil && len(lfc.LoopInvs) > 0 {
 			// default invariants from templates apply to every loop
-			nlc := &LoopContract{Ordinal: best + 1}
+			nlc := &LoopContract{Ordinal: li.ordinal}
 			if li.lc != nil {
 				*nlc = *li.lc
 			}
-			nlc.Invariants = append(append([]*Clause{}, f.fc.LoopInvs...), nlc.Invariants...)
+			nlc.Invariants = append(append([]*Clause{}, lfc.LoopInvs...), nlc.Invariants...)
 			li.lc = nlc
 		}
 	}
